@@ -169,4 +169,57 @@ let check (case : Sexp.t) : unit =
           result id "VIOL" "stream-upd"
             (Printf.sprintf "reported half-spaces are not those of the parent's predicate at the time of the report: script %s position %d: implementation %s, model %s"
                show_sc k a b)))
+  (* third case kind: PolyhedraGen::with_root(tree, r) with an inner start node r (coq/Pwl/PolyGenSub.v).
+     Deciding (tag substream): the stream equals the specification forest machine f_run (f_new_sub rows0 dt) on r's
+     subtree dt = dabs r, rows0 = start_rows = the rows of the edge that enters r (sub_spec_run;
+     C09_generator_subtree_refines_spec under ginv_sub, whose executable form gsubb is evaluated here).
+     Mirror: the coded machine pgen_run started at r *)
+  | List [Atom "case"; Atom id; Atom "regions_sub"; st; r; List (Atom "script" :: sc); List (Atom "stream" :: items)] ->
+    let t = itree_of st in
+    let root = (match t.root with Some r -> r | None -> 0) in
+    let start = int_of r in
+    let arena = arena_of t in
+    let fuel = nat_of_int (List.length arena + 1) in
+    let script = List.map (function Atom "N" -> Next | _ -> Skip) sc in
+    let show_sc = String.concat "" (List.map atom sc) in
+    let nskips = List.length (List.filter (fun c -> c = Skip) script) in
+    bump "substream_cases";
+    if start <> root then bump "substream_inner";
+    if gsubb arena then bump "ginv_sub_holds" else bump "ginv_sub_fails";
+    let impl = List.map iout_of items in
+    (* the left-most child chain below the start node; reported items (depth >= 1) that are not on it *)
+    let rec chain cur acc =
+      (match find_node t cur with
+       | Some nd -> (match List.filter_map (fun x -> x) nd.children with c :: _ when not (List.mem c acc) -> chain c (cur :: acc) | _ -> cur :: acc)
+       | None -> cur :: acc) in
+    let ch = chain start [] in
+    let off = List.filter (function IItem (d, i, _, _) -> d >= 1 && not (List.mem i ch) | _ -> false) impl in
+    if start <> root && off <> [] then begin
+      bump "substream_offchain"; bump "nontrivial";
+      if nskips > 0 then bump "substream_offchain_skips"
+    end;
+    bump_by "substream_offchain_items" (List.length off);
+    (match sub_spec_run fuel arena (nat_of_int start) script with
+     | None -> result id "ERR" "abs" "the subtree of the start node is not a tree or its parent edge is dangling"
+     | Some spec ->
+       let coded = pgen_run arena (pgen_new (nat_of_int start)) script in
+       (match impl with
+        | [IPanic] ->
+          if List.mem OPanic coded then bump "substream_mirror_agree"
+          else (bump "substream_mirror_mismatch"; result id "MIRROR" "substream-coded" "generator panicked, the coded machine does not");
+          if List.mem OPanic spec then result id "OK" "regions_sub" ""
+          else result id "VIOL" "substream"
+              (Printf.sprintf "with_root(%d) (tree root %d) panicked under script %s; the specification stream has %d items" start root show_sc (List.length spec))
+        | _ ->
+          (match first_diff 0 impl coded with
+           | None -> bump "substream_mirror_agree"
+           | Some (k, a, b) ->
+             bump "substream_mirror_mismatch";
+             result id "MIRROR" "substream-coded" (Printf.sprintf "with_root(%d) script %s position %d: implementation %s, coded machine %s" start show_sc k a b));
+          (match first_diff 0 impl spec with
+           | None -> bump "substream_agree"; result id "OK" "regions_sub" ""
+           | Some (k, a, b) ->
+             result id "VIOL" "substream"
+               (Printf.sprintf "with_root(%d) (tree root %d), script %s position %d: implementation %s, specification %s (rows of the edge into the start node followed by the rows from it down to the node)"
+                  start root show_sc k a b))))
   | _ -> result "?" "ERR" "parse" "unrecognised case"
